@@ -47,6 +47,14 @@ def _hp(t, seed):
   return {'bs': t[0], 'epochs': t[1], 'steps': t[2], 'drop': t[3], 'seed': seed}
 
 
+def _homogeneous(forms):
+  """Ids of ONE type per cohort: hyp_cluster passes an id-keyed dict through jax.jit, whose pytree flattening sorts the
+  keys, so ids of a cohort must be mutually comparable (None mixed with ints is not; fed_avg accepts it, see C01)."""
+  if forms['ids'] == 'none0':
+    forms = dict(forms, ids='negint')
+  return forms
+
+
 def _case(rng, kind, sizes, nrounds=3):
   pop = fs.gen_population(rng, sizes)
   ids = sorted(pop)
@@ -59,7 +67,7 @@ def _case(rng, kind, sizes, nrounds=3):
        # L2 regularizer weight where the algorithm's API takes one (fed_prox does not); 0 = regularizer=None
        'reg': 0.0 if kind in ('fedprox0', 'fedprox') or rng.random() < 0.4 else rng.choice([0.125, 0.25, 0.5]),
        'init': [rng.randint(-4, 4) / 4 for _ in range(fs.D)], 'pop': pop, 'rounds': rounds,
-       'forms': fs.gen_forms(rng) if rng.random() < 0.4 else dict(fs.FORMS0),
+       'forms': _homogeneous(fs.gen_forms(rng)) if rng.random() < 0.4 else dict(fs.FORMS0),
        'xdtype': 'float16' if rng.random() < 0.08 else 'float32', 'backend': 'jit', 'fresh': False}
   if kind == 'fedprox':
     c['mu'] = rng.choice([0.25, 0.5, 1.0])
@@ -79,7 +87,7 @@ def _case(rng, kind, sizes, nrounds=3):
 
 
 def generate(tier, rng):
-  reps = {'quick': 5, 'thorough': 56, 'search': 100}[tier]
+  reps = {'quick': 2, 'thorough': 48, 'search': 100}[tier]
   again = []
   # Every algorithm instance of the process is built from the SAME per_example_loss / grad function objects
   # (fedsim.per_example_loss, fedsim.shared_grad).  Hidden module-level or closure state keyed on them would leak
@@ -112,6 +120,57 @@ def generate(tier, rng):
     c['hp'] = _hp((2, None, 1, False) if kind == 'mime1' else (2, 1, None, False), 0)
     c['backend'] = ['debug', 'nojit'][j % 2]
     yield c
+  # WAVE4 item 5 (seeded C12-v2): every algorithm under the pmap backend (it re-orders clients by decreasing number of
+  # batches) with client sizes that are NOT sorted and differ; item 7: ids not presented in sorted order; the FedAvg
+  # counterpart stays on the default backend.  pmap with 3 devices runs in a subprocess.
+  for j, kind in enumerate(KINDS):
+    for backend in (['pmap', 'debug'] if tier == 'quick' else ['pmap', 'debug', 'pmap3']):
+      if tier == 'quick' and backend == 'debug' and j % 3:
+        continue
+      c = _case(rng, kind, [3, 9, 5, 0, 7])
+      c['hp'] = _hp((2, None, 1, False) if kind == 'mime1' else (2, 1, None, False), rng.randint(0, 9))
+      c['rounds'] = [[['2', 1], ['0', 2], ['1', 3], ['4', 4]], [['4', 5], ['3', 6], ['1', 7]]]
+      c['backend'] = backend
+      yield c
+  for kind in (('fedprox', 'mime_gen') if tier == 'quick' else ()):
+    c = _case(rng, kind, [3, 9, 5, 7])
+    c['hp'] = _hp((2, 1, None, False), 2)
+    c['rounds'] = [[['2', 1], ['0', 2], ['1', 3], ['3', 4]], [['3', 5], ['1', 7]]]
+    c['backend'] = 'pmap3'
+    yield c
+  # WAVE4 items 1-4, 6 on the reductions: chained optax transforms as optimizers, sentinel-like ids and two-leaf params,
+  # magnitude sweep (data scale 2**e with the client learning rate 2**-2e), a +inf feature on a real example,
+  # a global jax flag (one subprocess per setting)
+  CLIP = {'kind': 'clipsgd', 'lr': 0.25, 'clip': 0.125}
+  for j, kind in enumerate(('fedprox0', 'hypcluster', 'apfl', 'fedprox', 'mimelite1', 'mime1')):
+    base_hp = _hp((2, None, 1, False) if kind == 'mime1' else (2, 1, None, False), 3)
+    if kind in ('fedprox0', 'hypcluster', 'apfl', 'fedprox'):
+      c = _case(rng, kind, [5, 2, 7])
+      c['copt'], c['sopt'], c['hp'], c['reg'] = CLIP, dict(CLIP, lr=1.0), base_hp, 0.0
+      yield c
+    c = _case(rng, kind, [3, 9, 5, 0])
+    c['hp'] = base_hp
+    c['forms'] = {'clients': 'list', 'ids': ['negint', 'int'][j % 2], 'init': 'jax', 'key': 'jax', 'leaves': 2}
+    c['backend'] = ['pmap', 'jit'][j % 2]
+    yield c
+    e = [-20, 10, 20, -10, 10, -20][j]
+    c = _case(rng, kind, [4, 6, 3])
+    c['scale'], c['noise'], c['hp'], c['reg'] = e, False, base_hp, 0.0
+    c['copt'] = SGD(0.125 * 2.0 ** (-2 * e))
+    if kind == 'fedprox':
+      c['mu'] = 0.5 * 2.0 ** (2 * e)          # the penalty gradient mu*(w - w_s) scales like the data term
+    yield c
+    c = _case(rng, kind, [4, 6, 0])
+    c['noise'], c['hp'], c['poison'] = False, base_hp, ['1', 2]
+    c['rounds'] = [[['0', 1], ['2', 2]], [['1', 3], ['0', 4]], [['0', 5]]]
+    yield c
+  for flag in (['rbg'] if tier == 'quick' else ['rbg', 'tfp0', 'tfp1', 'x64', 'rankraise']):
+    for kind in (('hypcluster', 'apfl_noise') if tier == 'quick' else KINDS):
+      c = _case(rng, kind, [4, 2, 6, 0])
+      c['hp'] = _hp((2, None, 1, False) if kind == 'mime1' else (2, 1, None, False), 4)
+      c['noise'] = kind != 'apfl'
+      c['flags'] = flag
+      yield c
   # corners: a round without examples in the middle of a run, a round without clients, per kind
   for kind in KINDS:
     c = _case(rng, kind, [3, 0, 0, 4])
@@ -130,7 +189,7 @@ def generate(tier, rng):
       sizes = rng.choice(SIZES) if rng.random() < 0.6 else [rng.randint(0, 9) for _ in range(rng.randint(1, 6))]
       yield _case(rng, kind, sizes)
   # the first-built algorithm objects again, after all the others exist (run on fresh populations)
-  for c in again[:8]:
+  for c in again[:6]:
     c2 = _case(rng, c['kind'], [4, 1, 3])
     for k in ('copt', 'sopt', 'hp', 'noise', 'mu', 'slr', 'coef', 'reg', 'kind'):
       c2[k] = c[k]
@@ -168,7 +227,8 @@ def _make_aug(noise, mu):
   base = fs.per_example_loss(noise)
 
   def pel(params, batch, rng):
-    dw = params['w'][None, :] - batch['ws']
+    w = params['w'] if 'w' in params else jnp.concatenate([params['z1'], params['a0']])
+    dw = w[None, :] - batch['ws']
     return base(params, batch, rng) + 0.5 * mu * jnp.sum(dw * dw, axis=1)
   return pel
 
@@ -235,12 +295,38 @@ def _dataset_ws(data, ws):
 
 def _build(case, which):
   from fedjax.core import for_each_client as fec
-  backend = {'nojit': 'jit'}.get(case.get('backend', 'jit'), case.get('backend', 'jit'))
-  with fec.for_each_client_backend(backend):
-    return _algo_a(case) if which == 'a' else _algo_b(case)
+  if which == 'b':          # the FedAvg counterpart always runs on the default (jit) backend
+    return _algo_b(case)
+  with fec.for_each_client_backend(_backend_of(case)):
+    return _algo_a(case)
+
+
+def _backend_of(case):
+  b = case.get('backend', 'jit')
+  return {'nojit': 'jit', 'pmap3': 'pmap'}.get(b, b)
 
 
 def run(case):
+  tag = case.get('flags') or ('pmap3' if case.get('backend') == 'pmap3' else None)
+  if tag is None:
+    return run_local(case)
+  obs = fs.run_in_worker('c12', tag, case)
+  if 'worker_error' in obs:
+    obs = {'err_a': 'worker:' + obs['worker_error'], 'err_b': None, 'a': [], 'b': None, 'worker': obs.get('worker')}
+  return obs
+
+
+def _pop(case):
+  """The population as the implementation sees it: scaled by 2**scale, optionally with one +inf feature."""
+  pop = {c: fs.scaled(d, case.get('scale', 0)) for c, d in case['pop'].items()}
+  if case.get('poison'):
+    c, i = case['poison']
+    pop[c] = {'x': [list(r) for r in pop[c]['x']], 'y': list(pop[c]['y'])}
+    pop[c]['x'][i][0] = float('inf')
+  return pop
+
+
+def run_local(case):
   """A (the algorithm) and B (its real FedAvg counterpart) are stepped ALTERNATELY, round by round, in one process
   and from the same loss / grad function objects."""
   import contextlib
@@ -248,10 +334,11 @@ def run(case):
   kind = case['kind']
   forms = case.get('forms', fs.FORMS0)
   backend = case.get('backend', 'jit')
-  cfg = [case[k] for k in ('kind', 'copt', 'sopt', 'hp', 'noise', 'mu', 'slr', 'coef')] + [case.get('reg', 0.0), backend != 'debug']
-  alg_a = _cached(['a'] + cfg, lambda: _build(case, 'a'))
+  cfg = [case[k] for k in ('kind', 'copt', 'sopt', 'hp', 'noise', 'mu', 'slr', 'coef')] + [case.get('reg', 0.0)]
+  alg_a = _cached(['a', _backend_of(case)] + cfg, lambda: _build(case, 'a'))
   alg_b = _cached(['b'] + cfg, lambda: _build(case, 'b'))
-  cds = {c: fs.client_dataset(d, case.get('xdtype', 'float32')) for c, d in case['pop'].items()}
+  pop = _pop(case)
+  cds = {c: fs.client_dataset(d, case.get('xdtype', 'float32')) for c, d in pop.items()}
   obs = {'err_a': None, 'err_b': None, 'a': [], 'b': [] if alg_b is not None else None, 'a_trace': [],
          'reinit': None, 'fresh': None, 'caller': []}
   obs['streams'] = {c: fs.record_stream(cds[c], case['hp']) for c in sorted(cds)}
@@ -279,7 +366,7 @@ def run(case):
     return cl
 
   def init_a(alg):
-    w0 = fs.make_params(case['init'], forms['init'])
+    w0 = fs.make_params(case['init'], forms['init'], forms.get('leaves', 1))
     return alg.init([w0] if kind == 'hypcluster' else w0)
 
   def step_a(alg, state, rnd, w=None):
@@ -294,7 +381,7 @@ def run(case):
       keys = [jax.random.PRNGKey(s) for _, s in rnd]
     if kind == 'fedprox':         # the penalty pulls toward THIS round's server params
       ws = fs.flat(state.params)
-      data = {c: _dataset_ws(case['pop'][c], ws) for c, _ in rnd}
+      data = {c: _dataset_ws(pop[c], ws) for c, _ in rnd}
     else:
       data = cds
     with ctx():
@@ -309,13 +396,13 @@ def run(case):
     obs['err_a'] = fs.err_name(ex)
   if alg_b is not None:
     try:
-      sb = alg_b.init(fs.make_params(case['init'], 'jax'))
+      sb = alg_b.init(fs.make_params(case['init'], 'jax', forms.get('leaves', 1)))
     except Exception as ex:
       obs['err_b'] = fs.err_name(ex)
   for rnd in case['rounds']:
     if obs['err_a'] is None:
       try:
-        watch.watch('input params', (sa.cluster_params[0] if kind == 'hypcluster' else sa.params)['w'])
+        watch.watch('input params', fs.first_leaf(sa.cluster_params[0] if kind == 'hypcluster' else sa.params))
         sa = step_a(alg_a, sa, rnd, watch)
         obs['a'].append(_params_of(kind, sa))
         obs['a_trace'].append(fs.trace_of(sa.opt_states[0] if kind == 'hypcluster' else sa.opt_state))
@@ -356,7 +443,8 @@ def _ref_fedavg_chain(case, obs, prox_mu=None):
   srv = fs.RefOpt(SGD(1.0) if case['kind'] == 'mimelite1' else case['sopt'], fs.D)
   out = []
   for r, rnd in enumerate(case['rounds']):
-    members = [(len(case['pop'][c]['y']), case['pop'][c], obs['streams'][c], obs['nus'][r][j]) for j, (c, _) in enumerate(rnd)]
+    pop = _pop(case)
+    members = [(len(pop[c]['y']), pop[c], obs['streams'][c], obs['nus'][r][j]) for j, (c, _) in enumerate(rnd)]
     mean, _ = fs.ref_mean_delta(p, members, case['copt'], prox_mu, case.get('reg', 0.0))
     p = srv.apply(mean, p)
     out.append(p.copy())
@@ -372,7 +460,7 @@ def _ref_fullbatch_chain(case, obs):
     acc, tot = np.zeros(fs.D), 0.0
     for j, (c, _) in enumerate(rnd):
       for t, idxs in enumerate(obs['gstreams'][c]):
-        acc = acc + len(idxs) * fs.ref_grad(p, case['pop'][c], idxs, obs['nus'][r][j][t])
+        acc = acc + len(idxs) * fs.ref_grad(p, _pop(case)[c], idxs, obs['nus'][r][j][t])
         tot += len(idxs)
     g = acc / tot + 2.0 * case.get('reg', 0.0) * p if tot > 0 else np.zeros(fs.D)
     p = p - case['slr'] * case['copt']['lr'] * g
@@ -383,10 +471,24 @@ def _ref_fullbatch_chain(case, obs):
 def oracle(case, obs):
   out = []
   kind = case['kind']
+  if case.get('backend') == 'pmap3' and (obs.get('worker') or {}).get('devices') != 3:
+    out.append(('harness-devices', 'the pmap worker does not have 3 devices'))
   if obs['err_a']:
     return [(f'{kind}-raised:{obs["err_a"]}', f'{kind} raised {obs["err_a"]}')]
   if obs['err_b']:
     return [(f'fedavg-raised:{obs["err_b"]}', f'the FedAvg counterpart of {kind} raised {obs["err_b"]}')]
+  if case.get('poison'):
+    # a +inf feature on a REAL example of a client with positive weight: the algorithm and its FedAvg counterpart must
+    # both report non-finite parameters from the round in which that client trains (same rounds, nothing hidden)
+    c = case['poison'][0]
+    first = next((r for r, rnd in enumerate(case['rounds']) if any(cc == c for cc, _ in rnd) and obs['streams'][c]), None)
+    for r, a in enumerate(obs['a']):
+      bad = not fs.finite(a)
+      if (first is not None and r >= first) != bad:
+        out.append((f'{kind}-non-finite-mismatch', f'round {r}: params {a}; the poisoned client first trains in round {first}'))
+      if obs['b'] is not None and r < len(obs['b']) and bad != (not fs.finite(obs['b'][r])):
+        out.append((f'{kind}-vs-fedavg', f'round {r}: non-finite in one of {a} / {obs["b"][r]} only'))
+    return out
   if any(not fs.finite(p) for p in obs['a']):
     return [(f'{kind}-non-finite', f'{kind}: non-finite server params {obs["a"]}')]
   for what in obs.get('caller', []):
@@ -436,10 +538,10 @@ ALGO_TAG = {'fedprox0': 'AProx', 'fedprox': 'AProx', 'hypcluster': 'AHyp', 'mime
 
 
 def encode(case, obs):
-  if obs['err_a'] or len(obs['a']) != len(case['rounds']):
+  if obs['err_a'] or len(obs['a']) != len(case['rounds']) or case.get('poison') or 'sgd' != case['copt']['kind'] or 'sgd' != case['sopt']['kind']:
     return None
   pop = fw.clist([f'({_zid(c)}, {fw.clist(["(" + fw.qlist(x) + ", " + fw.qlit(y) + ")" for x, y in zip(d["x"], d["y"])])})'
-                  for c, d in sorted(case['pop'].items())])
+                  for c, d in sorted(_pop(case).items())])
   streams = fw.clist([f'({_zid(c)}, {fw.clist([fw.natlist(b) for b in st])})' for c, st in sorted(obs['streams'].items())])
   gstreams = fw.clist([f'({_zid(c)}, {fw.clist([fw.natlist(b) for b in st])})' for c, st in sorted(obs['gstreams'].items())])
   rounds = fw.clist([fw.clist([f'({_zid(c)}, {fw.qlist(nus)})' for (c, _), nus in zip(rnd, obs['nus'][r])])
@@ -462,8 +564,17 @@ def describe(case, obs):
           'batching': f'bs={case["hp"]["bs"]},ep={case["hp"]["epochs"]},st={case["hp"]["steps"]},drop={case["hp"]["drop"]}',
           'empty_rounds': sum(1 for t in tot if t == 0), 'key_dependent_loss': case['noise'],
           'regularizer': 'none' if not case.get('reg') else 'l2', 'backend': case.get('backend', 'jit'),
-          'forms': '/'.join(case.get('forms', fs.FORMS0)[k] for k in ('clients', 'ids', 'init', 'key')),
+          'forms': '/'.join(str(case.get('forms', fs.FORMS0).get(k, 1)) for k in ('clients', 'ids', 'init', 'key', 'leaves')),
           'xdtype': case.get('xdtype', 'float32'), 'hparams_seed0': case['hp']['seed'] == 0,
+          'data_scale_log2': case.get('scale', 0), 'jax_flags': case.get('flags') or 'default', 'poisoned': bool(case.get('poison')),
+          'optimizer_chain': 'clipsgd' in (case['copt']['kind'], case['sopt']['kind']),
+          # hypotheses of the theorems, checked on the generated case (a case that violates one is judged by the oracle /
+          # correspondence only, which is what the guards say)
+          'hyp_nodup_ids': all(len({c for c, _ in rnd}) == len(rnd) for rnd in case['rounds']),
+          'hyp_every_round_has_examples': all(t > 0 for t in tot),
+          'hyp_mime_one_step_clients': (all(len(st) == (1 if len(case['pop'][c]['y']) else 0) for c, st in obs['streams'].items())
+                                        if case['kind'] == 'mime1' and obs.get('streams') else 'n/a'),
+          'hyp_hypcluster_guard': ((all(t > 0 for t in tot) or not case['sopt'].get('mom')) if case['kind'] == 'hypcluster' else 'n/a'),
           'err': obs['err_a'] or obs['err_b']}
 
 
